@@ -334,6 +334,38 @@ fn check_json(ep: &EnergyPerformance, json: &str, cfg: &str, out: &mut Out) {
                 if let Some(d) = json_diff(&v, &v2, "") {
                     out.viol("json_reads_back_equal", &[], cfg, format!("re-serialized value differs at {d}"), "the same JSON value");
                 }
+                // ... and the value read back is the result itself, leaf by leaf (kinds of components, tags, ids, values;
+                // weighted energies at the 3 decimals the JSON carries)
+                let fb = result_flat(&back);
+                let mut bad = vec![];
+                for (p, l) in &flat {
+                    if p.starts_with("misc") {
+                        continue;
+                    }
+                    match (l.num(), fb.get(p)) {
+                        (Some(x), Some(m)) => {
+                            let y = m.num().unwrap_or(f64::NAN);
+                            if !((x - y).abs() <= 0.0011 + 2e-6 * x.abs() || x == y || (x.is_nan() && y.is_nan())) {
+                                bad.push(format!("{p}: read back {y} vs {x}"));
+                            }
+                        }
+                        (None, Some(m)) => {
+                            if format!("{m:?}") != format!("{l:?}") {
+                                bad.push(format!("{p}: read back {m:?} vs {l:?}"));
+                            }
+                        }
+                        (_, None) => bad.push(format!("{p}: absent in the value read back")),
+                    }
+                }
+                for p in fb.keys() {
+                    if !flat.contains_key(p) && !p.starts_with("misc") {
+                        bad.push(format!("{p}: only in the value read back"));
+                    }
+                }
+                if !bad.is_empty() {
+                    bad.sort();
+                    out.viol("json_reads_back_equal", &["structure"], cfg, bad[..bad.len().min(4)].join("; "), "the result itself (component kinds, tags, values)");
+                }
             }
             Err(e) => out.viol("json_reads_back_equal", &[], cfg, format!("{e}"), "serializable"),
         },
@@ -530,6 +562,18 @@ impl StateCheck for C17 {
             let o3 = cli::run(&cli::sv(&["-c", "@c.csv", "-l", "PENINSULA", "--json", "@o.json", "--xml", "@o.xml", "--txt", "@o.txt"]), &[("c.csv", text.as_bytes()), ("o.json", &oj), ("o.xml", &ox), ("o.txt", &ot)], &["o.json", "o.xml", "o.txt"], Some(7), Duration::from_secs(10));
             if o3.status != Some(0) || o3.files != o.files {
                 out.viol("cli_output_files_replace_existing_ones", &[], cfg, format!("exit {:?}; over existing files of the same length the files are not those of a run into fresh paths", o3.status), "the same three files");
+            }
+            // the same path given for two outputs: whatever the order of writing, the file must be ONE of the complete documents
+            {
+                let raw = |n: &str| o.files.iter().find(|(k, _)| k == n).and_then(|(_, b)| b.clone());
+                for (a, b, fa, fb) in [("--json", "--xml", "o.json", "o.xml"), ("--xml", "--txt", "o.xml", "o.txt"), ("--txt", "--json", "o.txt", "o.json")] {
+                    let o4 = cli::run(&cli::sv(&["-c", "@c.csv", "-l", "PENINSULA", a, "@same.out", b, "@same.out"]), &[("c.csv", text.as_bytes())], &["same.out"], Some(7), Duration::from_secs(10));
+                    out.regime("cli_same_path_for_two_outputs");
+                    let got = o4.files.iter().find(|(k, _)| k == "same.out").and_then(|(_, b)| b.clone());
+                    if o4.status != Some(0) || got.is_none() || !(got == raw(fa) || got == raw(fb)) {
+                        out.viol("cli_same_path_for_two_outputs_holds_one_document", &[], format!("cteepbd -c <file> -l PENINSULA {a} X {b} X"), format!("exit {:?}; X ({} bytes) is neither the {a} nor the {b} document of a run into separate paths", o4.status, got.map(|g| g.len()).unwrap_or(0)), "one complete document");
+                    }
+                }
             }
             let get = |n: &str| o.files.iter().find(|(k, _)| k == n).and_then(|(_, b)| b.clone()).map(|b| String::from_utf8_lossy(&b).to_string());
             match (get("o.json"), get("o.xml"), get("o.txt")) {
